@@ -10,7 +10,7 @@ theorem doClose_tie (c : Option CloseFrame) (w : World) : GenCtx.doClose c w = w
   tie_norm
   cases h : w.c.state <;> tie_norm [setAdditional_tie] <;> rfl
 
-theorem attempt_ccr {α β : Type} (w1 : World) (r : Res α) (hne : r ≠ .err .connectionClosed)
+theorem attempt_ccr {α β : Type} (w1 : World) (r : Res α)
     (K : World → α → World × Res β) :
     andThen (attemptPair (w1, r)) (fun w a => andThen (GenCtx.checkConnectionReset a w) K) =
       andThen (w1.checkConnectionReset r) K := by
@@ -18,10 +18,10 @@ theorem attempt_ccr {α β : Type} (w1 : World) (r : Res α) (hne : r ≠ .err .
   | panic s => rfl
   | err e =>
     simp only [attemptPair_err, andThen_ok]
-    rw [checkConnectionReset_tie _ _ (fun h => absurd h hne)]
+    rw [checkConnectionReset_tie]
   | ok o =>
     simp only [attemptPair_ok, andThen_ok]
-    rw [checkConnectionReset_tie _ _ (by intro h; cases h)]
+    rw [checkConnectionReset_tie]
 
 theorem readMessageFrame_tie (w : World) : GenCtx.readMessageFrame w = w.readMessageFrame := by
   unfold GenCtx.readMessageFrame World.readMessageFrame
@@ -30,17 +30,14 @@ theorem readMessageFrame_tie (w : World) : GenCtx.readMessageFrame w = w.readMes
   have hB' : codecReadFrame w.c.cfg.maxFrame (w.c.role == .server) w.c.cfg.acceptUnmasked w = x := by
     rw [← hB]; cases w.c.role <;> rfl
   clear hB
-  have hne := codecReadFrame_ne_cc w.c.cfg.maxFrame (w.c.role == .server) w.c.cfg.acceptUnmasked w
-  rw [hB'] at hne
   unfold codecReadFrame at hB'
   rcases hrf : w.c.codec.readFrame w.t w.c.cfg.maxFrame (w.c.role == .server) w.c.cfg.acceptUnmasked
     with ⟨codec, t, r⟩
   rw [hrf] at hB'
   simp only [] at hB' ⊢
   subst hB'
-  simp only [] at hne
   generalize w.setCodec codec t = w1
-  rw [attempt_ccr _ _ hne]
+  rw [attempt_ccr]
   apply andThen_congr; intro w o
   cases o with
   | none =>
